@@ -10,8 +10,8 @@ Local Open Scope N_scope.
 
 Definition goodv (tbls : list (list N)) (tbl : N) (sl : slice) : Prop :=
   forall s0 bytes, p_tables s0 = tbls -> slice_bytes s0 tbl sl = Ok bytes -> good_path bytes.
-Definition GPt (tbls : list (list N)) (t : T) : Prop :=
-  forall n no tbl sl, tget t n = Some no -> o_opcode no = aml_pOpIntNamePath -> o_value no = Some (VBytes tbl sl) -> goodv tbls tbl sl.
+Definition GPt (tbls : list (list N)) (X : N -> Prop) (t : T) : Prop :=
+  forall n no tbl sl, tget t n = Some no -> ~ X n -> o_opcode no = aml_pOpIntNamePath -> o_value no = Some (VBytes tbl sl) -> goodv tbls tbl sl.
 
 Lemma take_bytes_length d : forall len start l, take_bytes d start len = Some l -> length l = len.
 Proof.
@@ -44,6 +44,8 @@ Proof. intros s0 bytes _ H. unfold slice_bytes in H. cbn in H. inversion H; exac
 Section GP.
 Variable tbls : list (list N).
 Variable d : list N.
+(** the slots the invariant does not speak about (the objects that were live before the first pass) *)
+Variable X : N -> Prop.
 Let cur : N := N.of_nat (length tbls) - 1.
 Hypothesis Hd : nth_error tbls (N.to_nat cur) = Some d.
 
@@ -58,7 +60,7 @@ Proof.
 Qed.
 
 Definition W (s : pstate) : Prop := p_tables s = tbls /\ r_data (p_r s) = d /\ rok (p_r s).
-Definition G (s : pstate) : Prop := W s /\ GPt tbls (p_tree s).
+Definition G (s : pstate) : Prop := W s /\ GPt tbls X (p_tree s).
 
 Definition gk {A} (P : T -> Prop) (m : M A) (Q : A -> T -> Prop) : Prop :=
   forall s a s', G s -> P (p_tree s) -> m s = Ok (a, s') -> G s' /\ Q a (p_tree s').
@@ -202,9 +204,9 @@ Proof.
   unfold wrf, tu in H. destruct (wr (p_tree s) p f) as [t'| |] eqn:E; try discriminate.
   inversion H; subst. destruct (wr_inv _ _ _ _ E) as (-> & o0 & Ho0). unfold G. cbn [p_tree with_tree].
   split; [split; [exact Hw'|]|].
-  - intros n no tbl sl Hn Hop Hv. rewrite get_tset in Hn. destruct (N.eqb_spec n p) as [->|_]; [|exact (Hg _ _ _ _ Hn Hop Hv)].
+  - intros n no tbl sl Hn HX Hop Hv. rewrite get_tset in Hn. destruct (N.eqb_spec n p) as [->|_]; [|exact (Hg _ _ _ _ Hn HX Hop Hv)].
     rewrite Ho0 in Hn. cbn [option_map] in Hn. inversion Hn; subst no.
-    destruct (H2 o0 tbl sl (Hp _ Ho0) Hop Hv) as [(A & B)|A]; [exact (Hg _ _ _ _ Ho0 A B)|exact A].
+    destruct (H2 o0 tbl sl (Hp _ Ho0) Hop Hv) as [(A & B)|A]; [exact (Hg _ _ _ _ Ho0 HX A B)|exact A].
   - intros o Ho. rewrite get_tset, N.eqb_refl, Ho0 in Ho. cbn [option_map] in Ho. inversion Ho; subst o. apply H1. apply Hp. exact Ho0.
 Qed.
 
@@ -225,8 +227,8 @@ Proof.
   inversion H; subst a s'. unfold G. cbn [p_tree with_tree]. destruct (newObject_init _ _ _ _ _ E) as (o & info & Hq).
   destruct (newObject_shape _ _ _ _ _ E) as (_ & _ & Hbw & _).
   split; [split; [exact Hw'|]|].
-  - intros n no tbl sl Hn Hop Hv. destruct (N.eq_dec n p) as [->|Hne]; [rewrite Hq in Hn; inversion Hn; subst no; discriminate|].
-    exact (Hg _ _ _ _ (Hbw n no Hne Hn) Hop Hv).
+  - intros n no tbl sl Hn HX Hop Hv. destruct (N.eq_dec n p) as [->|Hne]; [rewrite Hq in Hn; inversion Hn; subst no; discriminate|].
+    exact (Hg _ _ _ _ (Hbw n no Hne Hn) HX Hop Hv).
   - intros o' Ho'. rewrite Hq in Ho'. inversion Ho'; subst o'. split; reflexivity.
 Qed.
 Lemma gpk_newObj opc : gpk (newObj opc).
@@ -237,8 +239,8 @@ Proof.
   intros Hf s a s' (Hw & Hg) _ H. pose proof (wk_tu _ _ _ _ Hw H) as Hw'.
   unfold tu in H. destruct (f (p_tree s)) as [t'| |] eqn:E; try discriminate. inversion H; subst. unfold G. cbn [p_tree with_tree].
   split; [split; [exact Hw'|]|exact I].
-  intros n no tbl sl Hn Hop Hv. destruct (pframe_inv _ _ _ _ (Hf _ _ E) Hn) as (o0 & Ho0 & E1 & _ & _ & _ & _ & _ & _ & E8).
-  apply (Hg n o0 tbl sl Ho0); congruence.
+  intros n no tbl sl Hn HX Hop Hv. destruct (pframe_inv _ _ _ _ (Hf _ _ E) Hn) as (o0 & Ho0 & E1 & _ & _ & _ & _ & _ & _ & E8).
+  apply (Hg n o0 tbl sl Ho0 HX); congruence.
 Qed.
 
 Lemma gk_curTable {B} P (k : N -> M B) Q : gk P (k cur) Q -> gk P (bindM curTable k) Q.
@@ -421,7 +423,7 @@ Qed.
 
 (** the first pass *)
 Lemma first_pass_good fuel s a s' :
-  W s -> GPt tbls (p_tree s) -> (scopeEnter 0 ;;; parseObjectList fuel) s = Ok (a, s') -> p_tables s' = tbls /\ GPt tbls (p_tree s').
+  W s -> GPt tbls X (p_tree s) -> (scopeEnter 0 ;;; parseObjectList fuel) s = Ok (a, s') -> p_tables s' = tbls /\ GPt tbls X (p_tree s').
 Proof.
   intros Hw Hg H.
   assert (K : gpk (scopeEnter 0 ;;; parseObjectList fuel)) by (apply gpk_bind; [gpk_prim|intros _; apply parseObjectList_gpk]).
